@@ -423,6 +423,39 @@ def run1_310(ctx: Ctx) -> None:
 
 
 
+def esc4(ctx: Ctx) -> None:
+    """ESC-4 a caught exception is not parked in a local variable that outlives its handler.  `except E as ex:` unbinds ex when the
+    handler ends because an exception references its traceback, the traceback references this frame, and the frame references
+    its locals: `saved = ex` re-creates exactly that cycle, which pins every frame in the traceback -- including the target's
+    frames and the objects on their value stacks -- until a cyclic collection runs (reference counts do not return to baseline).
+    Handing the exception on (appending it to the error list, storing it on the result, raising, returning) is what the
+    package does everywhere and is fine"""
+    n = 0
+    for mod in ctx.P.analysed_mods():
+        if mod.name in ("_version", "__init__", "lowlevel"):
+            continue
+        for q, fn in mod.defs.items():
+            if not isinstance(fn, (ast.FunctionDef, ast.AsyncFunctionDef)):
+                continue
+            for h in [x for x in walk_scope(fn) if isinstance(x, ast.ExceptHandler) and x.name]:
+                n += 1
+                for a in [y for st in h.body for y in ast.walk(st) if isinstance(y, ast.Assign) and len(y.targets) == 1 and isinstance(y.targets[0], ast.Name) and isinstance(y.value, ast.Name) and y.value.id == h.name]:
+                    saved = a.targets[0].id
+                    cleared = [z for z in walk_scope(fn) if (isinstance(z, ast.Delete) and any(isinstance(t_, ast.Name) and t_.id == saved for t_ in z.targets))
+                               or (isinstance(z, ast.Assign) and any(isinstance(t_, ast.Name) and t_.id == saved for t_ in z.targets) and isinstance(z.value, ast.Constant) and z.value.value is None and z.lineno > a.lineno)]
+                    used_after = [z for z in walk_scope(fn) if isinstance(z, ast.Name) and z.id == saved and isinstance(z.ctx, ast.Load) and not any(z is w_ for st in h.body for w_ in ast.walk(st))]
+                    g = ctx.cfg(fn)
+                    if cleared and g.all_paths_pass(g.node_of(a), {g.exit.idx}, {g.node_of(c_).idx for c_ in cleared}):
+                        ctx.R.ok("ESC-4", f"{mod.name}.{q}: `{saved} = {h.name}` is cleared on every path to the exit")
+                    elif used_after:
+                        ctx.R.fail("ESC-4", mod, a, f"{q} keeps the caught exception in the local `{saved}` after its handler has ended (and never clears it): exception -> traceback -> this frame -> `{saved}` "
+                                   "is a reference cycle that pins the frames of the traceback, the extraction target's among them, until a cyclic garbage collection (reference counts do not return to "
+                                   "baseline; __del__ / weakref callbacks of the observed program are delayed)", construct=f"{q}: {saved} = {h.name} outlives the handler")
+    if n < 10:
+        raise AnalysisError(f"ESC-4: only {n} named exception handlers found")
+    ctx.R.ok("ESC-4", f"{n} `except ... as name` handlers", "none parks the exception in a longer-lived local")
+
+
 def esc3(ctx: Ctx) -> None:
     """ESC-3 every coroutine / async generator the package instantiates for type discovery is closed on every path"""
     n = 0
@@ -1111,5 +1144,5 @@ def _glob_findings(fn: ast.AST, name_of, mod: Optional[Mod] = None):
     return out
 
 
-C06 = [esc1, esc2, esc3, null1, glob1, cty1]
+C06 = [esc1, esc2, esc3, esc4, null1, glob1, cty1]
 C07 = [snap, snap8, run1_310, thr1, thr2, null1]
